@@ -27,7 +27,7 @@ the prefix, cut short of an entity that U continues; every other split keeps the
 Sensitivity (quick tier, seed 1, scratch copy of /repo/tornado):
   M1 `if proto and proto not in permitted_protocols` -> `if False`      caught  C22.href_protocol_not_permitted (ftp://a.b)
   M2 `if require_protocol and not proto` -> `if False`                  caught  C22.protocol_less_link_when_protocol_required
-  M3 _URL_RE first char class `[^\s&()]` -> `[^\s()]` (admits any '&')   caught  C22.entity_split (href `http://a.b&gt`)
+  M3 _URL_RE first char class excludes whitespace, & and parens -> '&' admitted caught  C22.entity_split (href `http://a.b&gt`)
   M4 escape-first dropped (`text = _unicode(text)`)                     caught  C22.text_not_escaped_input, C22.tag_shape
   M5 `href = "http://" + href` dropped for www links                    caught  C22.href_protocol_not_permitted
   M6 `url = url[:max_len]` -> `url[-max_len:]` (label not a prefix)     caught  C22.label_not_prefix
